@@ -6,7 +6,7 @@ import numpy as np
 from hypothesis import strategies as st
 
 from pv import gen, zoo, zoo_extra
-from pv.engine import Result, Viol
+from pv.engine import Reject, Result, Viol
 from pv.props import c03_operator_arithmetic as c03
 from pv.props import c04_equality as c04
 
@@ -118,6 +118,11 @@ def _shift(s, cls=None):
             out[k] = c04._shift_scalar(v, 0.125)  # noqa: SLF001
         elif k == "coeffs":
             out[k] = [c04._shift_scalar(c, 0.125) for c in v]  # noqa: SLF001
+        elif k == "base" and s.get("op") == "evolution":
+            # Evolution.data is (param,) only: the generator's parameters are documented as not trainable and are not part of
+            # data, so "the other attributes are unchanged" means the twin keeps the generator (shifting it too demanded more
+            # than bind_new_parameters(x, y.data) can know)
+            out[k] = v
         elif k in ("base", "compute", "target", "uncompute", "obs") and isinstance(v, dict):
             out[k] = _shift(v)
         elif k == "operands":
@@ -193,12 +198,29 @@ def _root(a, how, default):
             return "capture:controlled-with-work-wires"
         if _adjoint_of_wrapper(a):  # the operator primitive stores adjoint as a flag and controls as a count: nesting is canonicalised
             return "capture:adjoint-of-wrapper"
+        if _nested_controlled_class(a):
+            return "capture:nested-controlled-class"
     return default
+
+
+def _nested_controlled_class(s):
+    """A Controlled / ControlledOp2 instantiated directly (via='class': no flattening, unlike qp.ctrl) on a base that is itself a ctrl spec."""
+    if isinstance(s, dict):
+        if s.get("op") == "ctrl" and s.get("via") == "class" and isinstance(s.get("base"), dict) and s["base"].get("op") == "ctrl":
+            return True
+        return any(_nested_controlled_class(v) for v in s.values())
+    if isinstance(s, list):
+        return any(_nested_controlled_class(v) for v in s)
+    return False
 
 
 def _adjoint_of_wrapper(s):
     if isinstance(s, dict):
         if s.get("op") == "adjoint" and isinstance(s.get("base"), dict) and any(k in s["base"] for k in ("base", "operands", "compute")):
+            return True
+        # change_op_basis(compute, target) without uncompute builds uncompute = adjoint(compute): an implicit adjoint of a wrapper
+        if (s.get("op") == "cob" and s.get("uncompute") is None and isinstance(s.get("compute"), dict)
+                and any(k in s["compute"] for k in ("base", "operands", "compute"))):
             return True
         return any(_adjoint_of_wrapper(v) for v in s.values())
     if isinstance(s, list):
@@ -219,7 +241,14 @@ def check(spec):
         return Result(False, labels=zoo_extra.coverage_labels())
     a = spec["a"]
     sig = c04._sig(a)  # noqa: SLF001
-    x = c04._build(a)  # noqa: SLF001
+    try:
+        x = c04._build(a)  # noqa: SLF001
+    except ValueError as ex:
+        # LinearCombination @ LinearCombination on shared wires is refused by the constructor path with this explicit message
+        # (legacy Hamiltonian semantics): there is no operator to round-trip, the case is outside the domain of this property
+        if "LinearCombinations can only be multiplied together if they act on different sets of wires" in str(ex):
+            raise Reject("LinearCombination @ LinearCombination on shared wires (documented ValueError)") from None
+        raise
     tname = type(x).__name__
     is_op = isinstance(x, qp.operation.Operator)
     labels = ["a:" + sig, "type:" + tname]
